@@ -70,7 +70,9 @@ def _ksrc_bump(tier, crate_dir=None):
     ns = range(0, 13) if tier == 'thorough' else (0, 3, 7)
     return ['bump_twin_n%d' % n for n in ns] + ['bump_str'] + ['state_n%d' % n for n in ((0, 4, 9) if tier != 'thorough' else range(0, 13))]
 
-BUMP_ALLOW = {r'bump_twin_n\d+|bump_str': ['Invalid Lexer bump']}
+# bump is specified to panic (whatever the message) on an invalid n: an explicit panic raised inside Lexer::bump is the one
+# failure these harnesses allow - and require
+BUMP_ALLOW = {r'bump_twin_n\d+|bump_str': {'panic_in': r'Lexer::<.*>::bump'}}
 
 KSRC_STATE = dict(crate='src_proofs', pool=False, label='K-src lexer state', harnesses=_ksrc_state, configs=[(), ('forbid_unsafe',)],
                   bounded=lambda tier: 'real (unsafe and forbid_unsafe) slicing code under every wf state of sources of length <= %d; state symbolic, length bounded' % (12 if tier == 'thorough' else 9))
